@@ -412,6 +412,7 @@ def run(rep, ctx):
     rule_K1(rep, funcs)
     rule_M1(rep, funcs)
     rule_P2(rep, funcs)
+    rule_R1(rep, funcs)
     return rep
 
 
@@ -1251,3 +1252,115 @@ def rule_P2(rep, funcs):
     if n < 40:
         raise AnalysisBroken("C01.P2: only %d conversion entry points" % n)
     rep.extra["p2_exceptions_used"] = sorted(P2_EXCEPTIONS[i][2] for i in used_exc)
+
+
+# ---------------------------------------------------------------------------------------------------
+# R1 shared conditional sub-expressions created/reused by converters get the context their new use needs
+# ---------------------------------------------------------------------------------------------------
+R1_EXCEPTIONS = {
+    "CountConverter_MIP::Convert": "only reached for non-binary arguments; the NL count operator takes logical arguments, whose results are binary variables",
+}
+
+
+def rule_R1(rep, funcs):
+    r1 = rep.rule("C01.R1", "WHO", "a converter that uses the result of a (possibly shared) conditional comparison in a constraint it adds propagates the context that use needs", floor=8)
+    PROP = ("FixAsTrue", "PropagateResultOfInitExpr", "PropagateResult2Vars")
+    n = 0
+    for f in sorted(funcs, key=lambda g: g.full):
+        cls0 = f.qn.split("::")[1] if f.qn.count("::") >= 2 else ""
+        if not re.search(r"Converter(_MIP)?(_CRTP)?$", cls0) or cls0 in ("FlatConverter", "MIPFlatConverter", "ExprConverter", "BasicFlatConverter"):
+            continue
+        calls = [c for c in f.walk() if c["k"] == "CXXMemberCallExpr" and (c.get("callee") or "").split("::")[-1] in ("AssignResultVar2Args", "AssignResult2Args")]
+        ordinal = {}
+        if not calls:
+            continue
+        parent = f.parent
+
+        def holder(c):
+            """the local variable / array the value of call c ends in, or the enclosing call that consumes it"""
+            p = parent.get(c["i"])
+            while p is not None and p["k"] in ("ImplicitCastExpr", "ExprWithCleanups", "MaterializeTemporaryExpr", "CXXBindTemporaryExpr", "ParenExpr", "CXXFunctionalCastExpr",
+                                               "CStyleCastExpr", "CXXStaticCastExpr", "InitListExpr", "CXXConstructExpr", "CXXTemporaryObjectExpr", "CXXStdInitializerListExpr"):
+                if p["k"] in ("CXXConstructExpr", "CXXTemporaryObjectExpr", "InitListExpr", "CXXStdInitializerListExpr"):
+                    # argument of a constraint constructor: find the AssignResult call that takes that constraint
+                    q = p
+                    while q is not None and not (q["k"] == "CXXMemberCallExpr" and (q.get("callee") or "").split("::")[-1] in ("AssignResultVar2Args", "AssignResult2Args", "AddConstraint") + PROP):
+                        q = parent.get(q["i"])
+                    if q is not None:
+                        return ("call", q)
+                p = parent.get(p["i"])
+            if p is None:
+                return ("none", None)
+            if p["k"] == "VarDecl":
+                return ("var", p)
+            if p["k"] == "BinaryOperator" and p.get("op") == "=":
+                lhs = strip(kids(p)[0])
+                base = lhs
+                while base["k"] in ("ArraySubscriptExpr", "CXXOperatorCallExpr") and kids(base):
+                    base = strip(call_args(base)[0] if base["k"] == "CXXOperatorCallExpr" else kids(base)[0])
+                return ("array" if base is not lhs else "var", base)
+            if p["k"] == "CXXOperatorCallExpr" and p.get("op") == "=":
+                lhs = strip(call_args(p)[0])
+                base = lhs
+                while base["k"] in ("ArraySubscriptExpr", "CXXOperatorCallExpr") and kids(base):
+                    base = strip(call_args(base)[0] if base["k"] == "CXXOperatorCallExpr" else kids(base)[0])
+                return ("array" if base is not lhs else "var", base)
+            if p["k"] == "CXXMemberCallExpr":
+                return ("call", p)
+            return ("other", p)
+
+        def propagated(c, depth=0):
+            if depth > 6:
+                return False
+            kind, h = holder(c)
+            if kind == "call":
+                nm = (h.get("callee") or "").split("::")[-1]
+                if nm in PROP:
+                    return True
+                if nm in ("AssignResultVar2Args", "AssignResult2Args"):
+                    return propagated(h, depth + 1)
+                return False
+            if kind in ("var", "array"):
+                did = h.get("declId")
+                for u in f.walk():
+                    if u["k"] == "DeclRefExpr" and u.get("declId") == did:
+                        q = parent.get(u["i"])
+                        while q is not None and q["k"] not in ("CXXMemberCallExpr", "CompoundStmt", "DeclStmt", "VarDecl"):
+                            q = parent.get(q["i"])
+                        if q is not None and q["k"] == "CXXMemberCallExpr":
+                            nm = (q.get("callee") or "").split("::")[-1]
+                            if nm in PROP:
+                                return True
+                            if nm in ("AssignResultVar2Args", "AssignResult2Args") and q is not c and propagated(q, depth + 1):
+                                return True
+                        # constraint constructor argument of an outer AssignResult call
+                        q2 = parent.get(u["i"])
+                        while q2 is not None and q2["k"] != "CompoundStmt":
+                            if q2["k"] == "CXXMemberCallExpr" and (q2.get("callee") or "").split("::")[-1] in ("AssignResultVar2Args", "AssignResult2Args") and q2 is not c:
+                                if propagated(q2, depth + 1):
+                                    return True
+                            q2 = parent.get(q2["i"])
+                return False
+            return False
+        for c in calls:
+            t = c.get("calleeFull") or ""
+            m = re.search(r"AssignResult(?:Var)?2Args<(.*)>$", t)
+            ty = m.group(1) if m else t
+            if "ConditionalConstraint<" not in ty:
+                continue
+            n += 1
+            cls = f.qn.split("::")[1]
+            key = "%s::%s|%s" % (cls, f.name, re.sub(r"mp::|std::", "", ty)[:70])
+            inst = "Quad" if re.search(r"Converter_MIP<[^>]*QuadAndLinTerms", f.full.split("::" + f.name)[0]) else ""
+            ordinal[key] = ordinal.get(key, 0) + 1
+            key += "|%s#%d" % (inst, ordinal[key])
+            site = "%s::%s" % (cls, f.name)
+            if site in R1_EXCEPTIONS:
+                r1.ok(key, short_loc(c.get("l")), "exception: " + R1_EXCEPTIONS[site])
+                continue
+            r1.check(propagated(c), key, short_loc(c.get("l")), "%s: the comparison flag is given its context (FixAsTrue / PropagateResultOfInitExpr, directly or through the enclosing expression)" % site,
+                     "%s places the result of a conditional comparison obtained from AssignResult(Var)2Args into a constraint it adds without propagating context: "
+                     "when the comparison already exists in the model with a one-sided context (e.g. it occurs in a disjunction), only that side of  flag <=> comparison  is generated "
+                     "and the added constraint no longer forces the flag" % site)
+    if n < 8:
+        raise AnalysisBroken("C01.R1: only %d sub-expression sites" % n)
